@@ -2265,7 +2265,12 @@ impl FileClusterConfig {
                     }
                     let tcp_frontend = f.to_tcp_front()?;
                     // the state refuses the second copy of a TCP/UDP frontend
-                    if frontends.contains(&tcp_frontend) {
+                    // (absent tags and an empty tag table are the same frontend there)
+                    let same = |a: &TcpFrontendConfig, b: &TcpFrontendConfig| {
+                        a.address == b.address
+                            && a.tags.clone().unwrap_or_default() == b.tags.clone().unwrap_or_default()
+                    };
+                    if frontends.iter().any(|known| same(known, &tcp_frontend)) {
                         return Err(ConfigError::DuplicateFrontend {
                             cluster_id: cluster_id.to_owned(),
                             frontend: tcp_frontend.address.to_string(),
